@@ -46,7 +46,7 @@ try:
     assert rc != 0, "demo does not fail with the change"
     caught_by = []
     for prop in props:
-        for tier, budget in (("quick", ""), ("thorough", "60")):
+        for tier, budget in (("quick", ""), ("thorough", "240" if prop == "C08" else "60")):
             e = dict(ENV, VERIF_REPO=wt)
             if budget:
                 e["VERIF_BUDGET_S"] = budget
